@@ -84,8 +84,10 @@ pub fn run(ctx: &mut Ctx, toks: &[&str]) -> String {
     vclock::enable(true);
     let client = &mut c.client;
     let r2 = std::panic::catch_unwind(std::panic::AssertUnwindSafe(|| client.now()));
+    // the same call again: same segment content (same generation), same clock readings
+    let r2b = std::panic::catch_unwind(std::panic::AssertUnwindSafe(|| client.now()));
     vclock::enable(false);
-    let s2 = match r2 {
+    let fmt = |r2: std::thread::Result<Result<clock_bound_client::ClockBoundNowResult, clock_bound_client::ClockBoundError>>| match r2 {
         Ok(Ok(n)) => {
             let e: libc::timespec = *n.earliest.as_ref();
             let l: libc::timespec = *n.latest.as_ref();
@@ -99,7 +101,10 @@ pub fn run(ctx: &mut Ctx, toks: &[&str]) -> String {
         },
         Err(_) => "panic".to_string(),
     };
-    if s1 == s2 {
+    let (s2, s2b) = (fmt(r2), fmt(r2b));
+    if s2 != s2b {
+        format!("MISMATCH client=[{}] same-call-repeated=[{}]", s2, s2b)
+    } else if s1 == s2 {
         s1
     } else {
         format!("MISMATCH shm=[{}] client=[{}]", s1, s2)
@@ -109,6 +114,37 @@ pub fn run(ctx: &mut Ctx, toks: &[&str]) -> String {
 /// C12: order of the two clock reads of `now()`.  `ord <cba fields> <delta_ns>`: every clock read
 /// after the first one sees both clocks `delta` later than the previous read did.
 /// -> <order of clock ids, R = realtime, M = monotonic> <result as for cba>
+/// ordv <record 7> real_s real_n mono_s mono_n k d_1 .. d_k : now() on the record under a clock that is
+/// moved on by d_i nanoseconds before the i-th read after the first (0 beyond k)
+/// -> <ids of the clocks read, in order: R realtime, M monotonic> <result>
+pub fn run_ordv(toks: &[&str]) -> String {
+    let t: Vec<i64> = toks.iter().map(|s| p::<i64>(s)).collect();
+    let ceb = mk_ceb(&t[0..7]);
+    let k = t[11] as usize;
+    let ds: Vec<i64> = t[12..12 + k].to_vec();
+    vclock::set_real(t[7], t[8]);
+    vclock::set_mono(t[9], t[10]);
+    let n = std::sync::Arc::new(std::sync::atomic::AtomicU64::new(0));
+    let n2 = n.clone();
+    vclock::set_hook(Some(Box::new(move |_clk| {
+        let i = n2.fetch_add(1, std::sync::atomic::Ordering::SeqCst) as usize;
+        if i > 0 && i <= ds.len() {
+            vclock::advance(ds[i - 1]);
+        }
+    })));
+    vclock::clear_log();
+    vclock::enable(true);
+    let r1 = std::panic::catch_unwind(|| ceb.now());
+    vclock::enable(false);
+    vclock::set_hook(None);
+    let order: String = vclock::take_log().iter().map(|(clk, _, _)| if *clk == libc::CLOCK_REALTIME { 'R' } else { 'M' }).collect();
+    let s1 = match r1 {
+        Ok(r) => fmt_shm(r),
+        Err(_) => "panic".to_string(),
+    };
+    format!("{} {}", order, s1)
+}
+
 pub fn run_ord(toks: &[&str]) -> String {
     let t: Vec<i64> = toks.iter().map(|s| p::<i64>(s)).collect();
     let ceb = mk_ceb(&t[0..7]);
